@@ -423,6 +423,12 @@ pub fn run(tier: &str) -> i32 {
                         progs.push(Prog { key: format!("{}|names={style}", progs[i].key), src, groups: progs[i].groups });
                     }
                 }
+                // every built-in type after a `: ` written through an `alias`
+                if let Some(src) = alias_types(&progs[i].src) {
+                    if naga_check(&src).is_ok() {
+                        progs.push(Prog { key: format!("{}|aliased-types", progs[i].key), src, groups: progs[i].groups });
+                    }
+                }
             }
         }
     }
